@@ -157,7 +157,10 @@ impl LockStep {
         if what.starts_with("hidden state: alternate screen") {
             return p == "C16";
         }
-        if p == "C06" && (what.starts_with("scrollback has") || what.starts_with("scrollback line")) {
+        if p == "C06"
+            && (what.starts_with("scrollback has")
+                || (what.starts_with("scrollback line") && !what.contains("soft-wrap mark")))
+        {
             // what lands in the scrollback is C06's business whichever command scrolled
             return true;
         }
